@@ -287,6 +287,10 @@ enum { I8, I16, I32, I64, U8, U16, U32, U64, F32, F64, F80 };
 
 static int getTypeId(Type *ty) {
   switch (ty->kind) {
+  case TY_BOOL:
+    return U8;
+  case TY_ENUM:
+    return ty->is_unsigned ? U32 : I32;
   case TY_CHAR:
     return ty->is_unsigned ? U8 : I8;
   case TY_SHORT:
